@@ -4,7 +4,8 @@
    (parser.go), Css/SelPrint.v (serialize.go).  Specification: Css/SelSpec.v
    (Selectors 4 as relations).  Check/C05.v ties the model to /repo on every run. *)
 From Verif Require Import Css.Sel Css.SelSpec Css.SelProofs.
-From Coq Require Import ZArith List.
+From Verif Require Import Css.SelParse Css.SelParseProofs Css.SelPrint Css.SelRoundtrip Css.SelRoundtripProofs.
+From Coq Require Import ZArith NArith List.
 Import ListNotations.
 
 (* ---- an+b: Go's truncating % and / decide "exists n >= 0, i = a*n + b" for all integers *)
@@ -97,3 +98,31 @@ Print Assumptions C05_specificity_order_total.
 Theorem C05_specificity_less_lex : forall x y, spec_less x y = true <-> lex_le x y /\ x <> y.
 Proof. exact spec_less_lex. Qed.
 Print Assumptions C05_specificity_less_lex.
+
+(* ---- the parser (ParseGroup) returns a group or an error for every byte string:
+   no index/slice panic, no non-termination (fuel 8*len+16 is never exhausted).  Used by C07. *)
+
+Theorem C05_sel_parse_total : forall s : str, exists r, parse_group s = Ok r.
+Proof. exact parse_group_total. Qed.
+Print Assumptions C05_sel_parse_total.
+
+Theorem C05_sel_parse_no_panic : forall (s : str) site, parse_group s <> Panic site.
+Proof. exact parse_group_no_panic. Qed.
+Print Assumptions C05_sel_parse_no_panic.
+
+(* ---- a parsed selector printed back parses to the same selector (hence an equivalent one).
+   Full statement, over every selector of the shape the parser produces: *)
+Definition C05_parse_print_roundtrip_statement : Prop :=
+  forall g : list sel, normal_group g = true -> parse_group (print_group g) = Ok (Some g).
+
+(* proved for the explicit family SelRoundtrip.samples (20 526 selector groups: every simple
+   selector over alphabets exercising each escaping rule, compounds, all combinators,
+   :is/:not/:has/:haschild of lists, selector lists); the tie checks the statement on every
+   selector parsed in every run (Check/C05.v code 10) *)
+Theorem C05_parse_print_roundtrip_partial : forall g, In g samples ->
+  normal_group g = true /\ parse_group (print_group g) = Ok (Some g).
+Proof. exact parse_print_roundtrip_partial. Qed.
+Print Assumptions C05_parse_print_roundtrip_partial.
+
+Example C05_roundtrip_family_size : N.of_nat (length samples) = 20526%N.
+Proof. vm_compute. reflexivity. Qed.
